@@ -426,13 +426,17 @@ func (kc *kernelCtx) runFunc0(b *Block) *Unit {
 			}
 		}
 	}
+	idents := map[string]bool{}
+	for _, n := range availFor(fn) {
+		idents[n] = true
+	}
 	mkEnv := func(st *State, ex *Exit) *Env {
 		env := &Env{X: x, St: st, Vars: map[string]SVal{}, Recv: recvName, Fields: fields, FieldType: func(f string) types.Type {
 			if ts == nil {
 				return nil
 			}
 			return kc.cellOrFieldType(ts, f)
-		}, Events: st.Events, Track: trackFn, Alias: alias, Exit: ex, UserFn: map[string]bool{}}
+		}, Events: st.Events, Track: trackFn, Alias: alias, Exit: ex, UserFn: map[string]bool{}, Idents: idents}
 		if len(st.Frames) > 0 {
 			fr := st.Frames[0]
 			for _, p := range fr.Fn.Params {
